@@ -13,7 +13,7 @@ CONSTANTS
   DocAlpha = {"a", "b", "nl", "{", "}", "on", "off", "=", "]"}
   DocAlphaNL = {"a", "n", "nl", "{", "}"}
   DocLen = 6
-  LexAlpha = {34, 92, 110, 10, 13, 123, 91, 93, 47, 32, 125}
+  LexAlpha = {34, 92, 110, 10, 13, 123, 91, 93, 47, 32}
   LexLen = 5
 INVARIANT RoundTrip
 INVARIANT WhitespaceOnly
